@@ -11,7 +11,7 @@ From Coq Require Import List NArith ZArith Bool Lia ZifyBool ZifyNat ZifyN Permu
 From HecsV Require Import Base.ListN Base.ListNFacts Proofs.ListNMore Model.EntityBits Model.Types Model.Entities
   Model.World Model.Query Model.Containers Model.Guards Model.WorldRun.
 From HecsV Require Import Proofs.EntityBitsProofs Proofs.MergeSpec Proofs.MergeProofs Proofs.WorldSpec Proofs.WorldSpec3
-  Proofs.WorldLemmas Proofs.WorldProofs1 Proofs.WorldProofs2 Proofs.ContSpec Proofs.ContProofs1 Proofs.ContMono
+  Proofs.WorldLemmas Proofs.WorldProofs1 Proofs.WorldProofs2 Proofs.ContSpec Proofs.ContProofs1 Proofs.ContMono Proofs.ContRun
   Proofs.InterpSpec Proofs.InterpDefs Proofs.InterpGens Proofs.InterpTake Proofs.InterpBatch Proofs.InterpWorld.
 Import ListNotations.
 Open Scope N_scope.
@@ -137,13 +137,25 @@ Proof. apply Forall_forall. intros x Hx. apply In_repeatN in Hx. subst x. apply 
 Lemma Forall_one {A} (P : A -> Prop) x : P x -> Forall P [x].
 Proof. intros H. constructor; [exact H|constructor]. Qed.
 
+Lemma In_insert_by {A} (key : A -> N) x y l : In x (insert_by key y l) -> x = y \/ In x l.
+Proof.
+  induction l as [|z l IH]; cbn [insert_by]; [intros [<-|[]]; auto|].
+  destruct (N.leb (key y) (key z)); cbn [In]; [intuition auto|]. intros [<-|H]; [auto|]. destruct (IH H); auto.
+Qed.
+
+Lemma In_sort_by {A} (key : A -> N) x l : In x (sort_by key l) -> In x l.
+Proof.
+  induction l as [|y l IH]; cbn [sort_by fold_right]; [auto|]. intros H. apply In_insert_by in H as [->|H]; [left; reflexivity|].
+  right. apply IH. exact H.
+Qed.
+
 (* ============================================================================================== *)
 (** * 2. Decoders *)
 
 Lemma dec_bundle_keyc u l : keyc (fst (dec_bundle u l)).
 Proof.
   unfold dec_bundle. destruct l as [|kind [|n r]]; cbn [fst]; try apply keyc_none.
-  destruct (take_pairs n r) as [items tl0]. cbn [fst]. destruct (N.eqb kind 0); [|apply keyc_none].
+  destruct (take_pairs n r) as [items tl0]. cbn [fst]. destruct (N.eqb kind 0 || N.leb 10 kind); [|apply keyc_none].
   intros k [= <-]. reflexivity.
 Qed.
 
@@ -465,6 +477,103 @@ Proof.
       eapply column_batch_at_keeps; try eassumption; [apply sorted_dedup_ati; exact T|apply norm_rows_ok].
 Qed.
 
+(* 17: Extend = a fold of spawn over the rows *)
+Definition ext_step (u : universe) (acc : world * list entity * option N) (row : list (tid * val)) :=
+  let '(w0, hs0, pan0) := acc in
+  match pan0 with
+  | Some _ => acc
+  | None => match w_spawn u w0 {| b_key := Some (0 :: map fst row); b_items := row |} with
+            | Done (w1, h) => (w1, hs0 ++ [h], None)
+            | Panic c => (w0, hs0, Some c)
+            end
+  end.
+
+Lemma extend_fold u : total_inj u -> forall rows w hs pan w' hs' pan',
+  fold_left (ext_step u) rows (w, hs, pan) = (w', hs', pan') ->
+  idm (w_ents w) <= idm (w_ents w') /\ (pan' = None -> pan = None) /\
+  (WInv u w -> pan' = None -> fits w' -> Forall hgen_ok hs -> WInv u w' /\ Forall hgen_ok hs').
+Proof.
+  intros T. induction rows as [|row rows IH]; intros w hs pan w' hs' pan' H; cbn [fold_left] in H.
+  - injection H as <- <- <-. split; [lia|]. split; auto.
+  - destruct pan as [c|]; cbn [ext_step] in H.
+    + destruct (IH _ _ _ _ _ _ H) as (Hm & Hp & _). split; [exact Hm|]. split; [exact Hp|].
+      intros _ E. specialize (Hp E). discriminate Hp.
+    + destruct (w_spawn u w _) as [[w1 h]|c] eqn:Es.
+      * destruct (IH _ _ _ _ _ _ H) as (Hm & _ & Hi). pose proof (idm_w_spawn _ _ _ _ _ Es) as Hm1.
+        split; [lia|]. split; [reflexivity|]. intros I E F' Hhs.
+        assert (F : fits w) by (eapply fits_mono; [|exact F']; lia).
+        assert (F1 : fits w1) by (eapply fits_mono; [|exact F']; lia).
+        assert (Hk : keyc {| b_key := Some (0 :: map fst row); b_items := row |}) by (intros k [= <-]; reflexivity).
+        destruct (spawn_keeps _ _ _ _ _ T I F Hk Es F1) as (I1 & Hv).
+        apply Hi; auto. apply Forall_app. split; [exact Hhs|apply Forall_one, valid_hgen, Hv].
+      * destruct (IH _ _ _ _ _ _ H) as (Hm & Hp & _). split; [exact Hm|]. split; [reflexivity|].
+        intros _ E. specialize (Hp E). discriminate Hp.
+Qed.
+
+Lemma hg_sorted hs : Forall hgen_ok hs -> Forall hgen_ok (sort_by to_bits hs).
+Proof. intros H. apply Forall_forall. intros x Hx. apply In_sort_by in Hx. rewrite Forall_forall in H. auto. Qed.
+
+Lemma hg_reorder k hs : Forall hgen_ok hs -> Forall hgen_ok (takeN k hs ++ sort_by to_bits (dropN k hs)).
+Proof.
+  intros H. rewrite Forall_forall in H. apply Forall_app. split.
+  - apply Forall_forall. intros x Hx. apply H. eapply In_takeN. exact Hx.
+  - apply hg_sorted. apply Forall_forall. intros x Hx. apply H. eapply In_dropN. exact Hx.
+Qed.
+
+Lemma step_op17 st wi args st' rest obs :
+  total_inj (e_u st) -> est_inv st -> est_fits st -> est_wf st ->
+  exec_op st 17 (wi :: args) = (st', rest, obs) -> est_fits st' -> post st st'.
+Proof.
+  intros T I F W H F'. red_op H. destruct (get_w st wi) as [w|] eqn:Hg; [|dead_world H W].
+  pose proof (est_inv_get _ _ _ I Hg) as Iw. pose proof (est_fits_get _ _ _ F Hg) as Fw.
+  destruct (dec_types args) as [ts r1].
+  destruct r1 as [|n r2]; [injection H as <- _ _; apply post_refl; assumption|].
+  destruct (dec_rows ts n r2) as [rows rest0].
+  match type of H with context [match ?X with _ => _ end] =>
+    match X with fold_left _ _ _ => destruct X as [[w' hs] pan] eqn:Ef end end.
+  assert (Ef' : fold_left (ext_step (e_u st)) rows (w, [], None) = (w', hs, pan)) by exact Ef.
+  destruct (extend_fold (e_u st) T rows w [] None w' hs pan Ef') as (_ & _ & Hi).
+  cbv beta iota in H. destruct pan as [c|]; injection H as <- _ _.
+  - fin1 W Hg wi w' 1 (repeatN NOHANDLE n); [nz|intros _; hg_tac].
+  - fin1 W Hg wi w' 0 (sort_by to_bits hs); [|nz]. intros _ Fw'.
+    destruct (Hi Iw eq_refl Fw' (Forall_nil _)) as (I' & Hhs). split; [exact I'|apply hg_sorted, Hhs].
+Qed.
+
+(* 18 / 19: spawn_batch / spawn_column_batch with a partially consumed iterator *)
+Lemma step_op18 st wi args st' rest obs :
+  total_inj (e_u st) -> est_inv st -> est_fits st -> est_wf st ->
+  exec_op st 18 (wi :: args) = (st', rest, obs) -> est_fits st' -> post st st'.
+Proof.
+  intros T I F W H F'. red_op H. destruct (get_w st wi) as [w|] eqn:Hg; [|dead_world H W].
+  pose proof (est_inv_get _ _ _ I Hg) as Iw. pose proof (est_fits_get _ _ _ F Hg) as Fw.
+  destruct args as [|k args']; [injection H as <- _ _; apply post_refl; assumption|].
+  destruct (dec_types args') as [ts r1].
+  destruct r1 as [|n r2]; [injection H as <- _ _; apply post_refl; assumption|].
+  destruct (dec_rows ts n r2) as [rows rest0]. cbv zeta in H.
+  destruct (w_spawn_batch (e_u st) w (0 :: ts) ts rows) as [[w' hs]|c] eqn:Es; injection H as <- _ _.
+  - fin1 W Hg wi w' 0 (takeN k hs ++ sort_by to_bits (dropN k hs)); [|nz]. intros _ Fw'.
+    destruct (spawn_batch_keeps _ _ _ _ _ _ _ T Iw Fw eq_refl Es Fw') as (I' & Hv).
+    split; [exact I'|]. apply hg_reorder. eapply Forall_impl; [|exact Hv]. intros a. apply valid_hgen.
+  - fin1 W Hg wi w 1 (repeatN NOHANDLE n); [nz|intros _; hg_tac].
+Qed.
+
+Lemma step_op19 st wi args st' rest obs :
+  total_inj (e_u st) -> est_inv st -> est_fits st -> est_wf st ->
+  exec_op st 19 (wi :: args) = (st', rest, obs) -> est_fits st' -> post st st'.
+Proof.
+  intros T I F W H F'. red_op H. destruct (get_w st wi) as [w|] eqn:Hg; [|dead_world H W].
+  pose proof (est_inv_get _ _ _ I Hg) as Iw. pose proof (est_fits_get _ _ _ F Hg) as Fw.
+  destruct args as [|k args']; [injection H as <- _ _; apply post_refl; assumption|].
+  destruct (dec_types args') as [ts r1].
+  destruct r1 as [|n r2]; [injection H as <- _ _; apply post_refl; assumption|].
+  destruct (dec_rows ts n r2) as [rows0 rest0]. cbv zeta in H.
+  destruct (w_spawn_column_batch w (dedup_sorted (tsort (e_u st) ts)) _) as [[w' hs]|c] eqn:Es; injection H as <- _ _.
+  - fin1 W Hg wi w' 0 (takeN k hs ++ sort_by to_bits (dropN k hs)); [|nz]. intros _ Fw'.
+    destruct (column_batch_keeps _ _ _ _ _ _ T Iw Fw (sorted_dedup_ati _ ts T) (norm_rows_ok _ rows0) Es Fw') as (I' & Hh).
+    split; [exact I'|apply hg_reorder, Hh].
+  - fin1 W Hg wi w 1 (repeatN NOHANDLE n); [nz|intros _; hg_tac].
+Qed.
+
 Lemma step_op21 st wi args st' rest obs :
   total_inj (e_u st) -> est_inv st -> est_fits st -> est_wf st ->
   exec_op st 21 (wi :: args) = (st', rest, obs) -> est_fits st' -> post st st'.
@@ -569,12 +678,12 @@ Proof.
 Qed.
 
 Lemma exec_guard_core st opc l st' rest obs :
-  100 <= opc <= 115 -> exec_guard st opc l = (st', rest, obs) -> same_core st st'.
+  100 <= opc <= 116 -> exec_guard st opc l = (st', rest, obs) -> same_core st st'.
 Proof.
   intros Hr H. unfold exec_guard in H.
   destruct (creates_guard opc && _); [injection H as <- _ _; apply push_guard_core|].
   assert (E : opc = 100 \/ opc = 101 \/ opc = 102 \/ opc = 103 \/ opc = 104 \/ opc = 105 \/ opc = 106 \/ opc = 107 \/
-              opc = 108 \/ opc = 109 \/ opc = 110 \/ opc = 111 \/ opc = 112 \/ opc = 113 \/ opc = 114 \/ opc = 115) by lia.
+              opc = 108 \/ opc = 109 \/ opc = 110 \/ opc = 111 \/ opc = 112 \/ opc = 113 \/ opc = 114 \/ opc = 115 \/ opc = 116) by lia.
   repeat (destruct E as [->|E]); try subst opc; cbv beta iota zeta in H;
     split_head H; injection H as <- _ _; core_done.
 Qed.
@@ -651,18 +760,6 @@ Qed.
 
 Lemma cmdbuf_ok_push c x : cmdbuf_ok c -> cmd_ok x -> cmdbuf_ok (cm_push_cmd c x).
 Proof. intros H Hx. unfold cmdbuf_ok, cm_push_cmd. cbn [cm_cmds]. apply Forall_app. split; [exact H|apply Forall_one, Hx]. Qed.
-
-Lemma In_insert_by {A} (key : A -> N) x y l : In x (insert_by key y l) -> x = y \/ In x l.
-Proof.
-  induction l as [|z l IH]; cbn [insert_by]; [intros [<-|[]]; auto|].
-  destruct (N.leb (key y) (key z)); cbn [In]; [intuition auto|]. intros [<-|H]; [auto|]. destruct (IH H); auto.
-Qed.
-
-Lemma In_sort_by {A} (key : A -> N) x l : In x (sort_by key l) -> In x l.
-Proof.
-  induction l as [|y l IH]; cbn [sort_by fold_right]; [auto|]. intros H. apply In_insert_by in H as [->|H]; [left; reflexivity|].
-  right. apply IH. exact H.
-Qed.
 
 Ltac red_cont H := unfold exec_cont in H; cbv beta iota zeta in H.
 
@@ -908,31 +1005,31 @@ Proof.
   reflexivity.
 Qed.
 
-Lemma exec_op_guard st opc l : 100 <= opc <= 115 -> exec_op st opc l = exec_guard st opc l.
+Lemma exec_op_guard st opc l : 100 <= opc <= 116 -> exec_op st opc l = exec_guard st opc l.
 Proof.
   intros H. unfold exec_op.
   replace (N.leb 50 opc && N.leb opc 86) with false
     by (destruct (N.leb_spec 50 opc), (N.leb_spec opc 86); cbn [andb]; try reflexivity; lia).
-  replace (N.leb 100 opc && N.leb opc 115) with true
-    by (destruct (N.leb_spec 100 opc), (N.leb_spec opc 115); cbn [andb]; try reflexivity; lia).
+  replace (N.leb 100 opc && N.leb opc 116) with true
+    by (destruct (N.leb_spec 100 opc), (N.leb_spec opc 116); cbn [andb]; try reflexivity; lia).
   reflexivity.
 Qed.
 
 Lemma exec_op_nil st opc :
-  ~ (50 <= opc <= 86) -> ~ (100 <= opc <= 115) -> opc <> 22 -> opc <> 23 -> exec_op st opc [] = (st, [], []).
+  ~ (50 <= opc <= 86) -> ~ (100 <= opc <= 116) -> opc <> 22 -> opc <> 23 -> exec_op st opc [] = (st, [], []).
 Proof.
   intros H1 H2 H3 H4. unfold exec_op.
   replace (N.leb 50 opc && N.leb opc 86) with false
     by (destruct (N.leb_spec 50 opc), (N.leb_spec opc 86); cbn [andb]; try reflexivity; lia).
-  replace (N.leb 100 opc && N.leb opc 115) with false
-    by (destruct (N.leb_spec 100 opc), (N.leb_spec opc 115); cbn [andb]; try reflexivity; lia).
+  replace (N.leb 100 opc && N.leb opc 116) with false
+    by (destruct (N.leb_spec 100 opc), (N.leb_spec opc 116); cbn [andb]; try reflexivity; lia).
   destruct (N.eqb_spec opc 23); [contradiction|]. destruct (N.eqb_spec opc 22); [contradiction|]. reflexivity.
 Qed.
 
 (* an opcode that means nothing: the script stops (live world) or the step is skipped (dead world) *)
 Lemma exec_op_other st opc wi args :
-  ~ (50 <= opc <= 86) -> ~ (100 <= opc <= 115) -> opc <> 22 -> opc <> 23 -> opc <> 20 -> opc <> 21 -> opc <> 30 ->
-  opc <> 90 -> ~ (1 <= opc <= 16) ->
+  ~ (50 <= opc <= 86) -> ~ (100 <= opc <= 116) -> opc <> 22 -> opc <> 23 -> opc <> 20 -> opc <> 21 -> opc <> 30 ->
+  opc <> 90 -> ~ (1 <= opc <= 19) ->
   exec_op st opc (wi :: args) =
   match get_w st wi with
   | None => (add_handles st (repeatN NOHANDLE 0), args, [8])
@@ -942,8 +1039,8 @@ Proof.
   intros H1 H2 H3 H4 H5 H6 H7 H8 H9. unfold exec_op.
   replace (N.leb 50 opc && N.leb opc 86) with false
     by (destruct (N.leb_spec 50 opc), (N.leb_spec opc 86); cbn [andb]; try reflexivity; lia).
-  replace (N.leb 100 opc && N.leb opc 115) with false
-    by (destruct (N.leb_spec 100 opc), (N.leb_spec opc 115); cbn [andb]; try reflexivity; lia).
+  replace (N.leb 100 opc && N.leb opc 116) with false
+    by (destruct (N.leb_spec 100 opc), (N.leb_spec opc 116); cbn [andb]; try reflexivity; lia).
   destruct (N.eqb_spec opc 23); [contradiction|]. destruct (N.eqb_spec opc 22); [contradiction|].
   destruct opc as [|p]; [reflexivity|].
   do 7 (try (destruct p as [p|p|])); try (exfalso; lia); reflexivity.
@@ -958,7 +1055,7 @@ Proof.
   intros st opc l st' rest obs T I F W H F'.
   destruct (N.le_gt_cases 50 opc) as [A1|A1]; [destruct (N.le_gt_cases opc 86) as [A2|A2]|].
   1: { rewrite exec_op_cont in H by lia. eapply step_cont; try eassumption. lia. }
-  all: (destruct (N.le_gt_cases 100 opc) as [B1|B1]; [destruct (N.le_gt_cases opc 115) as [B2|B2]|]).
+  all: (destruct (N.le_gt_cases 100 opc) as [B1|B1]; [destruct (N.le_gt_cases opc 116) as [B2|B2]|]).
   1,4: (rewrite exec_op_guard in H by lia; apply post_core; [assumption|assumption|];
         eapply exec_guard_core; [|exact H]; lia).
   all: (destruct (N.eq_dec opc 23) as [->|C1]; [eapply step_op23; eassumption|]).
@@ -968,18 +1065,20 @@ Proof.
   all: (destruct (N.eq_dec opc 21) as [->|C4]; [eapply step_op21; eassumption|]).
   all: (destruct (N.eq_dec opc 30) as [->|C5]; [eapply step_op30; eassumption|]).
   all: (destruct (N.eq_dec opc 90) as [->|C6]; [eapply step_op90; eassumption|]).
-  all: (destruct (N.le_gt_cases 1 opc) as [D1|D1]; [destruct (N.le_gt_cases opc 16) as [D2|D2]|]).
+  all: (destruct (N.le_gt_cases 1 opc) as [D1|D1]; [destruct (N.le_gt_cases opc 19) as [D2|D2]|]).
   all: try (rewrite exec_op_other in H by lia; destruct (get_w st wi); injection H as <- _ _;
             [apply post_refl; assumption|fin0 W; hg_tac]).
   all: (assert (E : opc = 1 \/ opc = 2 \/ opc = 3 \/ opc = 4 \/ opc = 5 \/ opc = 6 \/ opc = 7 \/ opc = 8 \/ opc = 9 \/
-                   opc = 10 \/ opc = 11 \/ opc = 12 \/ opc = 13 \/ opc = 14 \/ opc = 15 \/ opc = 16) by lia;
+                   opc = 10 \/ opc = 11 \/ opc = 12 \/ opc = 13 \/ opc = 14 \/ opc = 15 \/ opc = 16 \/ opc = 17 \/ opc = 18 \/
+                   opc = 19) by lia;
         repeat (destruct E as [->|E]); try subst opc;
         first [ eapply step_op1; eassumption | eapply step_op2; eassumption | eapply step_op3; eassumption
               | eapply step_op4; eassumption | eapply step_op5; eassumption | eapply step_op6; eassumption
               | eapply step_op7; eassumption | eapply step_op8; eassumption | eapply step_op9; eassumption
               | eapply step_op10; eassumption | eapply step_op11; eassumption | eapply step_op12; eassumption
               | eapply step_op13; eassumption | eapply step_op14; eassumption | eapply step_op15; eassumption
-              | eapply step_op16; eassumption ]).
+              | eapply step_op16; eassumption | eapply step_op17; eassumption | eapply step_op18; eassumption
+              | eapply step_op19; eassumption ]).
 Qed.
 
 (** the closest true statement to [interp_step_inv_stmt]: the state must also satisfy [est_wf], which the
@@ -1017,9 +1116,11 @@ Definition caps_upd (st st' : est) (opc wi : N) (args : list N) (st'' : est) (w 
   | _, _ => st''
   end.
 
-Lemma caps_post_eq st st' opc wi args :
-  caps_post st st' opc (wi :: args) =
-  if (N.leb 1 opc && N.leb opc 16) || N.eqb opc 53 || N.eqb opc 54 || N.eqb opc 64 then
+Lemma caps_post_eq st st' opc0 wi args0 :
+  caps_post st st' opc0 (wi :: args0) =
+  let args := if N.eqb opc0 18 || N.eqb opc0 19 then tl args0 else args0 in
+  let opc := if N.eqb opc0 18 then 14 else if N.eqb opc0 19 then 15 else opc0 in
+  if (N.leb 1 opc && N.leb opc 17) || N.eqb opc 53 || N.eqb opc 54 || N.eqb opc 64 then
     let target := if N.eqb opc 53 || N.eqb opc 54 || N.eqb opc 64 then match args with x :: _ => x | [] => 0 end else wi in
     if N.eqb opc 8 then caps_upd st st' opc wi args (caps_upd st st' opc wi args st' 0) 1
     else caps_upd st st' opc wi args st' target
@@ -1038,8 +1139,9 @@ Qed.
 
 Lemma caps_post_core st st' opc l : same_core st' (caps_post st st' opc l).
 Proof.
-  destruct l as [|wi args]; [apply core_refl|]. rewrite caps_post_eq.
-  destruct (_ || _); [|apply core_refl]. cbv zeta. destruct (N.eqb opc 8).
+  destruct l as [|wi args]; [apply core_refl|]. rewrite caps_post_eq. cbv zeta.
+  match goal with |- same_core _ (if ?c then _ else _) => destruct c end; [|apply core_refl].
+  match goal with |- same_core _ (if ?c then _ else _) => destruct c end.
   - eapply core_trans; apply caps_upd_core.
   - apply caps_upd_core.
 Qed.
